@@ -117,10 +117,8 @@ pub trait SimpleSerializer: Sized + Context {
     }
 
     fn serialize_unit_struct(&mut self, name: &'static str) -> Result<()> {
-        fail!(
-            in self,
-            "serialize_unit_struct is not supported",
-        )
+        // a unit struct carries no data: treat it like `()`
+        self.serialize_unit()
     }
 
     fn serialize_unit_variant(
